@@ -49,6 +49,11 @@ TEXT = {
   technique='property-based testing: generated GPT/MBR geometries (near start, straddling and beyond 4 GiB on a sparse device, physical != logical sectors) x readers of shorter/equal/longer length delivering odd pieces, (0,nil) and (n,EOF); oracle = device write log range check + byte comparison + error-type rules; thorough streams a >4 GiB partition against a synthetic verifying pattern region',
   level_text='Generated search over geometry x reader behaviour with an explicit containment and content oracle on the instrumented device. Exploration (sampled).',
   level_note='Trusts the harness device (range guard, hashes) and the stated success rule (success iff exactly size bytes supplied).'),
+ 'C17': dict(
+  design_ref='DESIGN.md §4 C17',
+  technique='schedule exploration by property-based testing under the Go race detector: generated goroutine mixes (2..32 readers with own handles, concurrent SetCacheSize), GOMAXPROCS 1..16, yield/sleep injection in the backend ReadAt; oracle = bytes equal the sequential expectation, completion before a watchdog, no race report',
+  level_text='Many generated schedules per run, each checked for byte equality, termination and data races (go test -race, halt_on_error). Exploration: schedules are sampled, absence of a bad interleaving is not shown.',
+  level_note='Trusts the Go race detector and the watchdog bound; a flaky failure is reported with the journaled case but its replay is probabilistic.'),
  'C15': dict(
   design_ref='DESIGN.md §4 C15',
   technique='fault enumeration: every GPT header field x boundary values x CRC recomputed/stale x primary/backup/both, 2-field size combinations, entry and MBR-slot corruptions, truncations, plus random images; oracle = no panic, watchdog, heap-allocation bound, returned tables only from CRC-valid data (independent parser); thorough adds a native go fuzz campaign',
